@@ -142,6 +142,10 @@ impl AsyncListableStorageTraits for AsyncOpendalStore {
                             keys.push(StoreKey::try_from(entry.path())?);
                         }
                         opendal::EntryMode::DIR => {
+                            // The root directory lists itself as "/", which is not a valid prefix
+                            if entry.path() == "/" {
+                                continue;
+                            }
                             let prefix_entry = StorePrefix::try_from(entry.path())?;
                             if &prefix_entry != prefix {
                                 prefixes.push(StorePrefix::try_from(entry.path())?);
